@@ -7,8 +7,10 @@ package main
 import (
 	"bytes"
 	"fmt"
+	"math"
 	"sort"
 	"strings"
+	"time"
 
 	clover "github.com/ostafen/clover/v2"
 	"github.com/ostafen/clover/v2/index"
@@ -16,8 +18,14 @@ import (
 )
 
 func rangePool() []interface{} {
+	// a time whose UnixNano ends in the byte 0xff, a float and an integer whose key ends in 0xff (an excluded lower bound
+	// must be stepped over whatever its last byte is), and integers beyond 2^53 that float64 represents exactly
+	tff := time.Unix(1700000000, 0).UTC()
+	tff = tff.Add(time.Duration(255 - tff.UnixNano()&0xff))
 	return []interface{}{nil, int64(1), int64(3), float64(3), uint64(3), float64(3.5), int64(5), int64(-2), "", "a", "ab", true, false,
-		poolTimes()[0], poolTimes()[4], []interface{}{}, []interface{}{int64(1)}, map[string]interface{}{}, map[string]interface{}{"a": int64(1)}, float64(1 << 53), int64(1<<53 + 1)}
+		poolTimes()[0], poolTimes()[4], []interface{}{}, []interface{}{int64(1)}, map[string]interface{}{}, map[string]interface{}{"a": int64(1)}, float64(1 << 53), int64(1<<53 + 1),
+		int64(1<<53 - 1), int64(-(1<<53 - 1)), math.Float64frombits(math.Float64bits(2.5) | 0xff), math.Float64frombits(math.Float64bits(-7) | 0xff), tff, tff.Add(1), "a\xff",
+		uint64(1 << 63), uint64(1 << 62), int64(-(1 << 62)), float64(1e19), uint64(math.MaxUint64), []interface{}{nil}, []interface{}{int64(1), nil}}
 }
 
 // meaning of a range: a nil bound that is excluded is "unbounded"; an included nil bound is the value nil
@@ -90,7 +98,24 @@ func runIdxStream(seed int64, n int, out, backendSpec string) *RunReport {
 						defer scanTx.Rollback()
 						idx = index.CreateIndex("c", "f", index.SingleField, scanTx).(index.RangeIndex)
 					}
-					nranges := 40
+					// systematic part: every stored value as an excluded / included bound on either side, both directions
+					type fixedRange struct {
+						rs, re          interface{}
+						sinc, einc, rev bool
+					}
+					var fixed []fixedRange
+					seenV := map[string]bool{}
+					for _, e := range entries {
+						if e.v == nil || seenV[gValue(e.v)] {
+							continue
+						}
+						seenV[gValue(e.v)] = true
+						for _, rev := range []bool{false, true} {
+							fixed = append(fixed, fixedRange{e.v, nil, false, false, rev}, fixedRange{nil, e.v, false, false, rev},
+								fixedRange{e.v, e.v, true, true, rev}, fixedRange{e.v, nil, true, false, rev}, fixedRange{nil, e.v, false, true, rev})
+						}
+					}
+					nranges := 40 + len(fixed)
 					for k := 0; k < nranges; k++ {
 						rs, re := pickOf(g, pool), pickOf(g, pool)
 						if g.Chance(0.25) {
@@ -103,6 +128,10 @@ func runIdxStream(seed int64, n int, out, backendSpec string) *RunReport {
 						whole := g.Chance(0.08)
 						if g.Chance(0.05) { // the nil-only range
 							rs, re, sinc, einc = nil, nil, true, true
+						}
+						if k >= 40 {
+							fr := fixed[k-40]
+							rs, re, sinc, einc, rev, whole = fr.rs, fr.re, fr.sinc, fr.einc, fr.rev, false
 						}
 						stop := pickOf(g, []int{-1, -1, -1, 1, 2})
 						var ids []string
